@@ -212,7 +212,7 @@ PROPS = {
     ),
     "C04": dict(
         theorems=["HC.C04.refuse_fork", "HC.C04.refuse_invalid", "HC.C04.refuse_noop", "HC.C04.refuse_before_commit",
-                  "HC.C04.sound_block", "HC.C04.sound_upgrade", "HC.C04.path_sound", "HC.C04.sound_first_contact", "HC.C04.sound_first_contact_extra", "HC.C04.sound_block_upgrade", "HC.C04.sound_upgrade_bytes", "HC.C04.sound_hash", "HC.C04.sound_block_seek", "HC.C04.sound_hash_seek", "HC.C04.sound_hash_upgrade", "HC.C04.sound_seek_upgrade", "HC.C04.sound_block_seek_upgrade", "HC.C04.sound_hash_seek_upgrade"],
+                  "HC.C04.sound_block", "HC.C04.sound_upgrade", "HC.C04.path_sound", "HC.C04.sound_first_contact", "HC.C04.sound_first_contact_extra", "HC.C04.sound_block_upgrade", "HC.C04.sound_upgrade_bytes", "HC.C04.sound_hash", "HC.C04.sound_block_seek", "HC.C04.sound_hash_seek", "HC.C04.sound_hash_upgrade", "HC.C04.sound_seek_upgrade", "HC.C04.sound_block_seek_upgrade", "HC.C04.sound_hash_seek_upgrade", "HC.C04.sound_seek", "HC.C04.empty_seek_is_no_seek"],
         bridge_modules=["HC.Bridge.Stores"], bridging=STORES_BRIDGE,
         runs=_c04_runs,
         partial="proved: refusal is a no-op; soundness of block-only proofs (writer's block or an explicit leaf/parent collision), of the hash climb in general, and of the roots/length/fork adopted by any accepted upgrade (signed head or an explicit root-hash collision / forgery). and of first-contact proofs (sound_first_contact: a block together with an upgrade from length 0 on a replica without roots delivers the writer's block - the block's root is shown to be one of the adopted, signed roots). and of block+upgrade proofs on any honest replica including the grow branch and additional nodes (sound_block_upgrade, sound_first_contact_extra). The adopted length and byte length are signed ones (sound_upgrade_bytes). Hash-only proofs (sound_hash) and block+seek proofs (sound_block_seek: the seek root waits in the block climb's queue as its extra node and the loop does not end before it is consumed, so the seek section is authenticated by the same comparison with a stored node): the requested / bottom node carries the writer's hash, and if its size is the writer's every node of the section is the writer's node - the sizes of the two bottom nodes are authenticated only as a sum, which is the one alteration the quantifier excludes. The same for hash+seek (sound_hash_seek). Hash section + upgrade (sound_hash_upgrade): the section's root is the extra node of verify_upgrade's queue; consumed by the upgrade it hashes up to signed roots (upgrade_extra_auth), otherwise it is compared with a stored node - the requested node carries the writer's hash in both cases. Seek sections next to an upgrade (sound_seek_upgrade, sound_block_seek_upgrade, sound_hash_seek_upgrade): the root verify_tree computes is authenticated either way (verifyProof_root_auth) and the section tails of the no-upgrade theorems apply to the writer's log or to its signed prefix of the adopted length - every combination of sections verify_proof accepts is covered. The alteration run checks the implementation on every altered proof.",
